@@ -36,7 +36,7 @@ type obj struct {
 	B string `json:"b"`
 }
 
-var texts = []string{"", "plain", "with: colon: inside", `{"json":true,"n":[1,2]}`, "esc\x1bape without marker", "\x1bjso almost", "unicode é世界", "rpc error: code = NotFound desc = fake"}
+var texts = []string{"", "plain", "with: colon: inside", `{"json":true,"n":[1,2]}`, "esc\x1bape without marker", "\x1bjso almost", "unicode é世界", "rpc error: code = NotFound desc = fake", "50% done", "fmt verbs %s %d %v %!", "100%"}
 
 func main() {
 	run := ev.Parse("C19", "exploration")
@@ -182,9 +182,9 @@ func main() {
 			}
 		}
 	}
-	samples.Add("all status codes 0..16 and 99 x 8 message texts through status.Error -> FromGRPCError / Is")
+	samples.Add("all status codes 0..16 and 99 x 11 message texts through status.Error -> FromGRPCError / Is")
 	run.Finish(ev.Coverage{
 		"evaluations": evals, "distinct_nontrivial": nontriv, "samples": samples.List, "exhaustive": true,
-		"rule": "full finite product: 10 classes with a gRPC code x 12 classes x wrap depth 0..4 (fmt %w) x embedded object position (none / innermost / outermost / every position for depth<=2) x 8 message texts (empty, colons, JSON, ESC without the marker, marker prefix, unicode, a fake rpc-error text); plus all 17 gRPC codes and one out-of-range code x 8 texts. Every case is distinct; non-trivial = every case except the OK code",
+		"rule": "full finite product: 10 classes with a gRPC code x 12 classes x wrap depth 0..4 (fmt %w) x embedded object position (none / innermost / outermost / every position for depth<=2) x 11 message texts (empty, colons, JSON, ESC without the marker, marker prefix, unicode, a fake rpc-error text); plus all 17 gRPC codes and one out-of-range code x 11 texts. Every case is distinct; non-trivial = every case except the OK code",
 	})
 }
